@@ -43,6 +43,7 @@ def run(ctx):
         r09_5(ctx, a)
         r09_7(ctx, a)
         r09_8(ctx, a)
+        r09_9(ctx, a)
         sites = [(blk, t) for blk, t in a.poll.built.calls() if wakers.is_poll_call(t)] + [(blk, t) for blk, t, c in wakers.local_poll_helper_calls(F, a.poll)]
         wakers.check_poll_fn(ctx, "R14.1", a.poll, sites)
     r09_6(ctx, ads)
@@ -268,7 +269,8 @@ def r09_7(ctx, a):
             if not atoms:
                 ctx.undecided("R09.7", fn, "multiplicity:%s" % "/".join(sorted(set(vs))), where, "count expression not recognised: %s" % fmt(cnt, 4))
             elif unrelated:
-                ctx.violated("R09.7", fn, "multiplicity:%s" % "/".join(sorted(set(vs))), where,
+                guards = sorted({"len%s%s" % ({"Lt": "<", "Le": "<=", "Gt": ">", "Ge": ">=", "Eq": "=="}[o], fmt(other, 2)) for o, other in len_guards(facts)})
+                ctx.violated("R09.7", fn, "multiplicity:%s|%s" % ("/".join(sorted(set(vs))), ",".join(guards)), where,
                              "`%s` emits %s x `%s` where the count neither depends on the buffer length nor is `%s` compared with the length on this path: the view holds min(%s, len) items, so for a %s larger than the length too many diffs are emitted" % (
                                  fn.path, "/".join(sorted(set(vs))), fmt(cnt, 4), fmt(unrelated[0], 3), a.param, a.param))
             else:
@@ -307,3 +309,64 @@ def r09_8(ctx, a):
         ctx.verdict(empty, "R09.8", f, "produce-only-when-buffer-empty:%s" % name, b.line_at((blk, 10 ** 6)),
                     "`%s` is reached only on the None edge of pop_from_*_buf (ready buffer empty)" % name,
                     "`%s` produces new diffs while a previously translated diff may still be parked in the ready buffer: the new diff overtakes it and the consumer replays them out of order" % name)
+
+
+def len_guards(facts):
+    """(op, other) for dominating comparisons `len(..) op other` (normalised so that the length is on the left)."""
+    out = []
+    for f in conds.bare(facts):
+        if f[0] != "cmp":
+            continue
+        _, o, a_, b_ = f
+        la = contains(a_, lambda z: z[0] == "call" and ecall_matches(z, r"::len$"))
+        lb = contains(b_, lambda z: z[0] == "call" and ecall_matches(z, r"::len$"))
+        if la and not lb:
+            out.append((o, b_))
+        elif lb and not la:
+            out.append((conds.SWAP[o], a_))
+    return out
+
+
+def r09_9(ctx, a):
+    """an update function that answers Some(diffs) never answers an empty list: the poll function forwards it through
+    extend_*_buf, which yields None for an empty list, and the adapter would report end-of-stream while the source is alive."""
+    f = a.update
+    b = f.built
+    if "Vec<" not in b.locals[0]["ty"]:
+        return
+    n = 0
+    for loc, kind, payload in blocks_assigning_ret(b):
+        if loc[0] not in b.reachable() or kind != "assign" or payload["k"] != "agg" or payload.get("variant") != "Some":
+            continue
+        n += 1
+        op = payload["ops"][0]
+        e = strip(b.expr_of_op(op), through_calls=False)
+        where = b.line_at(loc)
+        if e[0] == "call" and isinstance(e[1], str) and re.search(r"into_vec$|from_elem$", e[1]):
+            ctx.holds("R09.9", f, "some-is-nonempty", where, "Some(vec![..]) literal")
+        elif e[0] == "call" and ecall_matches(e, r"^std::vec::Vec::<.*>::(new|with_capacity)$|Default>?::default$"):
+            # pushes into that local
+            root = op["place"]["l"] if op["k"] in ("move", "copy") else None
+            aliases = {root}
+            whole, _ = b.defs
+            for l, ds in whole.items():
+                for dl, k2, p2 in ds:
+                    if k2 == "assign" and p2["k"] == "use" and p2["op"]["k"] in ("move", "copy") and not p2["op"]["place"]["proj"] and l == root:
+                        aliases.add(p2["op"]["place"]["l"])
+            pushes = []
+            for blk, t in b.calls(r"^std::vec::Vec::<.*>::(push|extend|append|insert|extend_from_slice)$"):
+                r0 = b.expr_of_op(t["args"][0])
+                if t["args"][0]["k"] in ("move", "copy"):
+                    # &mut <local>
+                    for sl, st in b.iter_stmts():
+                        if st["k"] == "assign" and st["place"]["l"] == t["args"][0]["place"]["l"] and st["rv"]["k"] == "ref" and st["rv"]["place"]["l"] in aliases:
+                            pushes.append(blk)
+            dom = [p for p in pushes if b.dominates(p, loc[0])]
+            if dom:
+                ctx.holds("R09.9", f, "some-is-nonempty", where, "a push (bb%s) dominates the Some(..) return" % dom)
+            else:
+                ctx.violated("R09.9", f, "some-is-nonempty", where,
+                             "`%s` can return Some(<empty list>) (the list starts empty and no push dominates the return): the poll function turns that into Ready(None) through extend_*_buf, ending the adapter's stream while the source is alive" % f.path)
+        else:
+            ctx.undecided("R09.9", f, "some-is-nonempty", where, "non-emptiness of `%s` not decided" % fmt(e, 3))
+    return n
